@@ -292,3 +292,32 @@ def min_step0(cfg: dict) -> float:
 def beta_step(cfg: dict) -> float:
     cfg = {**DEFAULT, **cfg}
     return 1 / cfg["n_steps"] if cfg["n_steps"] is not None else float("nan")
+
+
+ROUTES = ("bytes", "dict", "pkl", "h5")
+
+
+def make_source(res, route: str, tmpdir: str):
+    """the last checkpoint of an interrupted run in one of the documented forms"""
+    import os
+
+    if not res["ckpts"]:
+        return None
+    ck = res["ckpts"][-1]
+    if route == "bytes":
+        return ck["bytes"]
+    if route == "dict":
+        return ck["state"]            # the live dictionary handed to the callback
+    if route == "pkl":
+        p = os.path.join(tmpdir, f"ck_{id(ck)}.pkl")
+        with open(p, "wb") as f:
+            f.write(ck["bytes"])
+        return p
+    if route == "h5":
+        from aspire.utils import AspireFile
+
+        p = os.path.join(tmpdir, f"ck_{id(ck)}.h5")
+        with AspireFile(p, "a") as h5:
+            res["sampler"].save_checkpoint_to_hdf(ck["state"], h5, path="checkpoint", dsetname="state")
+        return p
+    raise ValueError(route)
